@@ -3,6 +3,6 @@ CONSTANTS
   NestLimit = 10
   MaxStack = 513
   StepBudget = 3000
-  Family <- Extreme
+  Family <- ExtremeAll
 INVARIANTS EnumDump
 CHECK_DEADLOCK FALSE
